@@ -267,8 +267,10 @@ def sstep (fam : SFam) (k : Kind) (cap : Nat) (s : St) (t : Bool) (op : SOp) : E
 
 inductive XOp where
   | emplace (j v : Nat)        -- `emplace<J>(int)`
-  | emplaceCopy (j v : Nat)    -- `emplace<J>(T const&)` and `v = t` (converting assignment = emplace)
-  | emplaceMove (j v : Nat)    -- `emplace<J>(T&&)` and `v = move(t)`
+  | emplaceCopy (j v : Nat)    -- `emplace<J>(T const&)`
+  | emplaceMove (j v : Nat)    -- `emplace<J>(T&&)`
+  | assignCopy (j v : Nat)     -- `v = t` with `t` an lvalue of alternative type `J` (converting assignment)
+  | assignMove (j v : Nat)     -- `v = move(t)`
   | optAssignCopy (v : Nat)    -- `optional = t`
   | optAssignMove (v : Nat)    -- `optional = move(t)`
   | reset                      -- `optional::reset()` = `emplace<0>(nullopt)`
@@ -288,6 +290,8 @@ def xstep (k : Kind) (trk : Nat → Bool) (s : St) (t : Bool) (op : XOp) : Excep
   | .emplace j v => s.upd t (varEmplace k trk m sl ix j (.value v))
   | .emplaceCopy j v => s.upd t (varEmplace k trk m sl ix j (.copy (.ext v)))
   | .emplaceMove j v => s.upd t (varEmplace k trk m sl ix j (.move (.ext v)))
+  | .assignCopy j v => s.upd t (varAssignValue k trk false m sl ix j (.ext v))
+  | .assignMove j v => s.upd t (varAssignValue k trk true m sl ix j (.ext v))
   | .optAssignCopy v => s.upd t (optAssignValue k trk m sl ix tv (.copy (.ext v)))
   | .optAssignMove v => s.upd t (optAssignValue k trk m sl ix tv (.move (.ext v)))
   | .reset => s.upd t (varEmplace k trk m sl ix 0 (.value 0))
@@ -311,9 +315,9 @@ def xstep (k : Kind) (trk : Nat → Bool) (s : St) (t : Bool) (op : XOp) : Excep
     | .error e => .error e
     | .ok (m1, nt, _) => .ok (s.put t m1 nt)
   | .assignOwn =>
-    -- `operator=(T&& t)` is `emplace<J>(forward<T>(t))`: `destroy()` runs first, then the new alternative is
-    -- copy-constructed from `t`, which is the object that was just destroyed
-    s.upd t (varEmplace k trk m sl ix ix (.copy (.slot sl)))
+    -- `operator=(T&& t)` with `t = (*this)[index_v<index()>]`, an lvalue: the selected alternative is the one
+    -- held, so the held object is copy-assigned from itself
+    s.upd t (varAssignValue k trk false m sl ix ix (.slot sl))
   | .use =>
     match varUse trk m sl ix with
     | .error e => .error e
